@@ -294,6 +294,11 @@ class Gen:
             out.append(f"function wide({ps}) -> {t} {{\n  return ((a0 + a{n - 1}) + a{n // 2});\n}}\n")
         self.wide = wide
         names = r.sample(["main", "shade", "f", "g_", "eval", "kernel", "step", "blend", "k2", "Fn"], r.randint(1, 5))
+        size = r.random()
+        if size < 0.04:
+            # size as a dimension: many small functions ...
+            names = names + [f"fn{k}" for k in range(r.randint(30, 60))]
+        long_fn = names[0] if 0.04 <= size < 0.09 else None  # ... or one long straight-line function
         for fname in names:
             self.readonly = set()
             params = []
@@ -306,6 +311,11 @@ class Gen:
             self.ret = r.choice(["int", "float", "uint", "void", "int", "float"])
             first = r.choice(["while", "do", "for", "if", "decl", "assign", "decl"])
             body = self.stmt(env, 1, 0, False, first) + self.block(env, 1, 0, False, r.randint(0, 4))
+            if fname == long_fn:
+                # stays well below the ~200 sequential branches at which the unchanged tree can no
+                # longer pickle a module (known finding C17-D5)
+                for _ in range(r.randint(40, 80)):
+                    body += self.stmt(env, 1, 1, False, r.choice(["assign", "assign", "if", "decl"]))
             if self.wide and r.random() < 0.6:
                 _w, wt, wn = self.wide
                 body += f"  {wt} {self.fresh('w')} = wide(" + ", ".join(self.expr(wt, env, 2) for _ in range(wn)) + ");\n"
